@@ -8,6 +8,7 @@ CONSTANTS
   UseUntil = TRUE
   PreStarted = FALSE
   FixedStopOrder = 0
+  ResetInRun = FALSE
 SPECIFICATION TraceSpec
 POSTCONDITION Report
 CHECK_DEADLOCK FALSE
